@@ -30,3 +30,11 @@ impl<'a> core::ops::SubAssign<&'a G> for G {
 pub open spec fn hs(d: Seq<i64>, k: nat) -> int
     decreases d.len() - k
 { if k >= d.len() { 0 } else { d[k as int] as int + 2 * hs(d, k + 1) } }
+
+impl vstd::std_specs::ops::AddAssignSpecImpl<G> for G {
+    open spec fn obeys_add_assign_spec() -> bool { true }
+    open spec fn add_assign_req(&self, rhs: G) -> bool { true }
+    open spec fn add_assign_spec(&self, rhs: G) -> &G { &gmk(self.m() + rhs.m()) }
+}
+impl core::ops::AddAssign<G> for G {
+    fn add_assign(&mut self, rhs: G) { self.g = Ghost(self.m() + rhs.m()); } }
